@@ -399,8 +399,31 @@ def r19_6(prog, chk):
         for (d, name), sites in sorted(creates.items(), key=lambda kv: kv[0][1]):
             dels = [c for c in f.calls() if (c.get("callee") or "").split("::")[-1] in DELETE_COLS and
                     any(a is not None and any(y["k"] == "DeclRefExpr" and y.get("d") == d for y in walk(a)) for a in call_args(c))]
+            # deletions made only when the returned error flag is set undo an OUTPUT on failure: they are roll-backs, not the
+            # clean-up of a working column
+            retvars = {y["d"] for r in f.walk() if r["k"] == "Return" and r.get("c") and r["c"][0] is not None
+                       for y in walk(r["c"][0]) if y["k"] == "DeclRefExpr" and y.get("dk") == "var"}
+
+            def rollback(c):
+                child = c
+                for a in f.ancestors(c):
+                    if a["k"] == "If" and len(a["c"]) >= 2 and a["c"][1] is child:
+                        conj, work = [], [a["c"][0]]
+                        while work:
+                            cnd = work.pop()
+                            while cnd is not None and cnd["k"] == "Cast":
+                                cnd = cnd["c"][0]
+                            if cnd is not None and cnd["k"] == "BinOp" and cnd.get("op") == "&&":
+                                work += cnd["c"]
+                            elif cnd is not None:
+                                conj.append(cnd)
+                        if any(cnd["k"] == "DeclRefExpr" and cnd.get("d") in retvars for cnd in conj):
+                            return True
+                    child = a
+                return False
+            dels = [c for c in dels if not rollback(c)]
             if not dels:
-                continue                         # never deleted here: an output of the function
+                continue                         # never deleted here (or only rolled back): an output of the function
             if any(r["k"] == "Return" and r.get("c") and r["c"][0] is not None and any(y["k"] == "DeclRefExpr" and y.get("d") == d for y in walk(r["c"][0]))
                    for r in f.walk()):
                 continue                         # the identifier is returned: an output (deleted only on error paths)
@@ -426,11 +449,34 @@ def r19_6(prog, chk):
                     return v["v"] is True
                 return True
             isdel = lambda x: any(x["i"] == c["i"] for c in dels)
+            pset = {p["d"] for p in f.params}
+
+            def param_only_guard(c):
+                """the deletion is conditional on plain parameters (and the validity of the identifier) only"""
+                found = False
+                child = c
+                for a in f.ancestors(c):
+                    if a["k"] == "If" and len(a["c"]) >= 2 and a["c"][1] is child:
+                        for y in walk(a["c"][0]):
+                            if y["k"] == "DeclRefExpr" and y.get("dk") in ("var", "parm") and y.get("d") != d:
+                                if y["d"] not in pset:
+                                    return False
+                                found = True
+                            elif y["k"] in ("MCall", "Call", "MemberExpr"):
+                                return False
+                    child = a
+                return found
             for site in sites:
                 n += 1
                 chk.analysed(f)
                 res = g.path_through(site, is_barrier=isdel, edge_ok=edge_ok, exit_pred=success)
                 ok = res is None
+                if not ok and not g.implied_at(site) and all(param_only_guard(c) for c in dels) and \
+                        not any(a["k"] == "If" for a in f.ancestors(site)):
+                    # created unconditionally, dropped when a parameter says it is not wanted: an optional OUTPUT, not a working column
+                    chk.ob("R19.6", "%s: `%s` is an optional output (created unconditionally, dropped on request of a parameter): not judged" % (f.name, name),
+                           f.loc(site), True, key="R19.6|%s|%s" % (f.name, name), nontrivial=False)
+                    continue
                 chk.ob("R19.6", "%s: working column `%s` is deleted on every path to a successful return" % (f.name, name), f.loc(site), ok,
                        detail=None if ok else "the function creates a working column, deletes it under a narrower condition than it creates it, and "
                        "returns success: the data base gains an undocumented variable (case: %s)" % ", ".join(
